@@ -44,6 +44,9 @@ def main():
             # python's datetime has no year 0000 (RFC 3339 allows it): not a verdict
             if e.validator == "format" and isinstance(e.instance, str) and e.instance.startswith("0000-"):
                 continue
+            # 29 February of a non-leap year is a known finding of its own (fixed inputs in the harness): not judged here
+            if e.validator == "format" and isinstance(e.instance, str) and "-02-29" in e.instance:
+                continue
             # python's re gives \d \w \s (and their complements) Unicode meaning on str patterns, JSON Schema
             # (ECMA-262) and the engine give them ASCII meaning: not a verdict (the Rust validator decides)
             if e.validator == "pattern" and isinstance(e.validator_value, str) and any(x in e.validator_value for x in ("\\d", "\\w", "\\s", "\\D", "\\W", "\\S")):
